@@ -120,6 +120,77 @@ CHECKS = {
               "equality with the source is literal; trains sorted, no duplicate (sample, cluster)."),
         technique="TLA+ model of table/chunk-job/row bookkeeping checked with TLC + trace validation of hook-recorded real extractions",
     ),
+    "C11": dict(
+        category="model_checking",
+        text=("TLC checks spec/sys/ReaderOpen.tla (a writer that may stop at every byte length; the open branches of Reader, "
+              "OnlineReader and Reader on .cbin) against OpenSucceeds / Exposed (ns = bytes div frame) / WithinFile / Duration "
+              "exhaustively over frame sizes {2,4,10,770} x <= 5 frames x announced counts; every exported case, 385-channel files "
+              "with every trailing byte count 0..769, sparse files up to 1e9 frames, fractional sampling rates and .cbin/.ch "
+              "mismatches are opened by the real code (spec -> code comparison with the exported expectation) and validated as "
+              "traces by spec/trace/ReaderOpenTrace.tla, including reads at and past the end."),
+        design_ref="DESIGN.md §4 C11",
+        note=("Trusted: TLC; harness/c11.py; rl*fs projected to a frame count (1e-6 rel.); values compared as float32(raw)*s2v. A "
+              ".cbin physically truncated inside a chunk and growth of the file after an OnlineReader was constructed are outside."),
+        technique="TLA+ model of writer/open branches checked with TLC + replay of exported cases + trace validation of real opens",
+    ),
+    "C09": dict(
+        category="model_checking",
+        text=("TLC checks spec/lib/MetaGrammar.tla (classification rule of the reader and rendering rule of the writer over every "
+              "value string up to length 6/7 of an abstract alphabet {0, nonzero digit, ',', '.', '=', '~', other} and small files: "
+              "ValueRoundTrip, FileRoundTrip, WrittenInDomain) and spec/lib/MetaDerive.tla (decision tables for version, stream "
+              "type, channel / sync counts, max-int, per-channel volts-per-bit as exact triples, against an independent "
+              "channel-by-channel reading) over 4 k / 14 k configurations. Every exported string and configuration is replayed on "
+              "the real read_meta_data / write_meta_data / Reader (metagen files), and full-size, fixture and random files are "
+              "validated as traces (MetaGrammarTrace, MetaDeriveTrace)."),
+        design_ref="DESIGN.md §4 C09",
+        note=("Trusted: TLC; harness/c09.py + vkit/metagen.py; gains projected from floats (1e-5 rel., the code's float32 error is "
+              "6e-8); the probe-type table and the NP2 gain of 80 are taken from the library's documentation; saved-channel subsets "
+              "are prefixes of the IMRO table."),
+        technique="TLA+ grammar/decision-table models checked with TLC + replay of exported cases + trace validation on real metadata files",
+    ),
+    "C07": dict(
+        category="model_checking",
+        text=("TLC checks spec/lib/Shift.tla: fshift followed on the impulse basis in the frequency domain as the code does it "
+              "(phase ramps as integer numerators over n*D): integer shift = circular roll, zero shift = identity, successive "
+              "shifts add on every bin, per-trace shift vectors reach the right trace along either axis of 2-D arrays, with the "
+              "Nyquist-bin caveat for even n modelled; plus the parabolic-interpolation and correlation-centre facts. TLC-exported "
+              "token maps are replayed on the real fshift (f32/f64) and thousands of real experiments (n 2..256, 509, 1024, 2048; "
+              "both axes; full impulse basis and sub-Nyquist multi-sines; wave_shift_corrmax / shift_waveform on model waveforms) "
+              "are validated by spec/trace/ShiftTrace.tla."),
+        design_ref="DESIGN.md §4 C07",
+        note=("Trusted: TLC; harness/c07.py. Residual sizes (1e-5 f32 / 1e-10 f64), the 0.05-sample estimate accuracy and the 5 % "
+              "re-alignment residual are numeric projections on the real output."),
+        technique="TLA+ phase-ramp model checked with TLC + replay of exported token maps + trace validation of real shifts",
+    ),
+    "C05": dict(
+        category="model_checking",
+        text=("TLC checks spec/lib/DestripePipeline.tla: (1) ADC ticks - the adc_shifts loop equals the wiring closed form for "
+              "NP1/NP2/NPultra and realigning by the table gives every channel the same time label (not with the opposite sign or "
+              "another generation's table); (2) data flow over all 4^6 label vectors - outside-brain channels are neither read nor "
+              "written by the spatial filter; (3) the per-collection call tree of car / kfilt / fk over all groupings of 6-7 "
+              "channels - one child per group carrying the caller's filter, gain-control and operator settings. The real "
+              "car/kfilt/fk/agc/interpolate/fshift are wrapped, the recorded call trees and pipelines (4 generations x "
+              "k-filter/CAR x AP/LFP x label classes) are validated by spec/trace/DestripeTrace.tla; the stripe is sampled at the "
+              "spec's wiring ticks."),
+        design_ref="DESIGN.md §4 C05",
+        note=("Trusted: TLC; harness/c05.py. The 40 dB / 90 % / zero-reference / AGC-product / group-equals-alone figures are "
+              "numeric projections on the real output with the property's own thresholds."),
+        technique="TLA+ ADC-tick, data-flow and call-tree models checked with TLC + trace validation of wrapped real calls; dB figures by projection",
+    ),
+    "C19": dict(
+        category="exploration",
+        text=("The estimator (cross-correlation, nearest-neighbour assignment, least squares) is numeric and is not modelled. "
+              "spec/lib/ClockSync.tla contributes the ground-truth bookkeeping (index maps after deletions, TruePairs as a monotone "
+              "injective matching, checked by TLC for all deletion patterns N <= 8/9), the enumeration of the loss patterns that "
+              "the harness maps onto long event trains (30..300 events, drift +-100 ppm, offsets, jitter, both modes), and a model "
+              "of the binning arithmetic of the coarse correlation (every event has a bin, all spans 1..30000 ms). Every real "
+              "sync_timestamps call is validated by spec/trace/ClockSyncTrace.tla: Sound / Complete(5 %) / WellFormed against the "
+              "truth recomputed by the spec from the recorded deletions; map accuracy (<= 2 ms) and drift (<= 5 ppm) by projection."),
+        design_ref="DESIGN.md §4 C19, §5",
+        note=("Honest scope: TLA+ decides the index bookkeeping and the bin arithmetic only; accuracy clauses are measured on the "
+              "real output (tolerances ~10x what correct code achieves)."),
+        technique="TLC-enumerated loss patterns + TLA+ bookkeeping oracle via trace validation; estimator accuracy by numeric projection",
+    ),
 }
 
 NOT_YET = {}
